@@ -72,6 +72,7 @@ def trace_terms(recs, cfgs=None):
     segs = []
     cur = None
     prev = None
+    tainted = False
     stats = dict(allocs=0, excl_allocs=0, releases=0, reserves=0, segments=0, skipped=0)
     def pools_sig(ta):
         return [(p['name'], p['parent'], p['iso'], p['res'], p['shar']) for p in ta['pools']]
@@ -101,7 +102,10 @@ def trace_terms(recs, cfgs=None):
                     last[call[1]] = k
             # a grant that no pass applied was carried over from the saved allocations (failed update whose
             # revert failed too): it precedes the ones this request reinstated
-            order = lambda i: (last.get(i, -1), i)
+            # The reinstated state does not depend on the order (C13_ta_state_determined_by_grants), only the
+            # capacity checks on the way do: grants without exclusive CPUs go first, which is the most permissive
+            # order (a successful pass of the implementation in any map order is reproduced by it).
+            order = lambda i: (1 if grants[i]['exclusive'] else 0, last.get(i, -1), i)
             tterm, idx = tree_term(ta['pools'])
             cur = dict(tree=tterm, idx=idx, sig=pools_sig(ta), groups=[])
             segs.append(cur)
@@ -132,7 +136,14 @@ def trace_terms(recs, cfgs=None):
                 stats['allocs'] += 1
                 if g['exclusive']:
                     stats['excl_allocs'] += 1
-        told = told_items(rec, cfgs[ri], cidx) if cfgs else []
+        # a rejected configuration update is reverted by re-applying the previous configuration; when that fails
+        # too the cached cpusets are left half-rewritten (known finding K9, judged by the C13 and C01 oracles):
+        # the told-cpuset comparison is suspended until the next complete re-application
+        if rec['op'] == 'Reconfigure' and rec['reply']['class'] != 'ok':
+            tainted = True
+        elif new_seg:
+            tainted = False
+        told = told_items(rec, cfgs[ri], cidx) if cfgs and not tainted else []
         stats['told_checked'] = stats.get('told_checked', 0) + len(told)
         cur['groups'].append('([%s], %s)' % ('; '.join(ops), obs_term(ta, idx, cidx, told)))
         prev = rec
